@@ -107,7 +107,8 @@ impl MT940 {
         // Parse optional repetitive Field 65 (Forward Available Balance)
         parser = parser.with_duplicates(true);
         let mut forward_balances = Vec::new();
-        while let Ok(field_65) = parser.parse_field::<Field65>("65") {
+        while parser.detect_field("65") {
+            let field_65 = parser.parse_field::<Field65>("65")?;
             forward_balances.push(field_65);
         }
 
